@@ -181,7 +181,53 @@ pub broadcast proof fn lemma_count_one_more<'a>(a: Seq<Seq<Node<'a>>>, b: Seq<Se
     lemma_count_one_more_x(a, b, Status::SKIP);
 }
 
+// children added since `a`: one more closed child appends its node
+pub broadcast proof fn lemma_new_push<'a>(a: Seq<Seq<Node<'a>>>, b: Seq<Seq<Node<'a>>>, c: Seq<Seq<Node<'a>>>)
+    requires #[trigger] st_extends(a, b), #[trigger] st_one_more(b, c),
+    ensures
+        st_extends(a, c),
+        st_new(a, c) =~= st_new(a, b).push(st_last(c)),
+        kid_statuses(st_new(a, c)) =~= kid_statuses(st_new(a, b)).push(rec_status(st_last(c).rec)),
+{
+    lemma_one_more_extends(b, c);
+    lemma_extends_trans(a, b, c);
+    assert(c.last() == b.last().push(st_last(c)));
+    assert(st_new(a, c) =~= st_new(a, b).push(st_last(c)));
+}
+
+pub broadcast proof fn lemma_new_refl<'a>(a: Seq<Seq<Node<'a>>>)
+    requires a.len() >= 1,
+    ensures #[trigger] st_new(a, a) =~= Seq::<Node<'a>>::empty(),
+{}
+
+// start_record immediately followed by end_record adds exactly one leaf node
+pub broadcast proof fn lemma_open_close_leaf<'a>(s0: Seq<Seq<Node<'a>>>, rec: RecordType<'a>)
+    requires s0.len() >= 1,
+    ensures
+        st_one_more(s0, #[trigger] st_close(s0.push(Seq::empty()), rec)),
+        st_last(st_close(s0.push(Seq::empty()), rec)).rec == rec,
+{
+    let s1 = s0.push(Seq::<Node<'a>>::empty());
+    assert(s1.drop_last() =~= s0);
+    lemma_extends_refl(s1);
+    lemma_open_close(s0, s1, rec);
+}
+
+pub broadcast proof fn lemma_new_concat<'a>(a: Seq<Seq<Node<'a>>>, b: Seq<Seq<Node<'a>>>, c: Seq<Seq<Node<'a>>>)
+    requires #[trigger] st_extends(a, b), #[trigger] st_extends(b, c),
+    ensures
+        st_new(a, c) =~= st_new(a, b) + st_new(b, c),
+        st_new(a, c).subrange(st_new(a, c).len() - st_new(b, c).len(), st_new(a, c).len() as int) =~= st_new(b, c),
+{
+    lemma_extends_trans(a, b, c);
+    assert(c.last().subrange(0, b.last().len() as int) =~= b.last());
+}
+
 pub broadcast group group_stack {
+    lemma_new_concat,
+    lemma_new_push,
+    lemma_new_refl,
+    lemma_open_close_leaf,
     lemma_count_has,
     lemma_count_to_has,
     lemma_count_one_more,
@@ -291,7 +337,10 @@ pub open spec fn er_wf(r: EvalRes) -> bool {
 // Uninterpreted: the clause-level contract only says which polarity bit reaches this layer (C03); what the layer
 // computes for given values is the business of the unary/binary units.
 pub uninterp spec fn un_sem(q: Seq<QueryPart>, lhs: Seq<QueryResult>, op: CmpOperator, negated: bool) -> EvalRes;
-pub uninterp spec fn bin_sem(lhs: Seq<QueryResult>, rhs: Seq<QueryResult>, op: CmpOperator, negated: bool) -> EvalRes;
+// binary clauses: the per-value layer is the view (bin_view, prelude_binop.rs) of what the comparator layer computes
+pub open spec fn bin_sem(lhs: Seq<QueryResult>, rhs: Seq<QueryResult>, op: CmpOperator, negated: bool) -> EvalRes {
+    bin_view(operators::cmp_sem(lhs, rhs, op, negated))
+}
 
 // "all: FAIL iff some value fails, else PASS; some: PASS iff some value passes, else FAIL; an empty (filtered)
 // selection makes the clause SKIP" -- the Empty case carries the status decided by the per-value layer
@@ -325,6 +374,18 @@ pub broadcast proof fn lemma_count_to_has(s: Seq<Status>, n: int, x: Status)
         }
     }
 }
+
+pub open spec fn rep(k: nat, x: Status) -> Seq<Status> {
+    Seq::new(k, |i: int| x)
+}
+
+pub proof fn lemma_er_push(v: Seq<(QueryResult, Status)>, x: (QueryResult, Status))
+    ensures er_statuses(v.push(x)) =~= er_statuses(v).push(x.1),
+{}
+
+pub proof fn lemma_const_push(pre: Seq<Status>, k: nat, x: Status)
+    ensures (pre + rep(k, x)).push(x) =~= pre + rep(k + 1, x),
+{}
 
 pub open spec fn clause_agg(all: bool, r: EvalRes) -> Status {
     match r {
